@@ -16,7 +16,7 @@ CHAIN_FRAME = [
     ("$refused", "in_chain(self, o)"),
     ("$ncalls", "o == inner(self)"),
     ("$clock", "o == None"),
-    ("$list<fl>", "field(o, '$kind', 'int') == 9 and in_chain(self, dur_owner(o))"),
+    ("$list<fl>", "field(o, '$kind', 'int') == 9 and in_chain(self, dur_owner(o)) and instance_of(dur_owner(o), 'StatsGatheringProblem')"),
 ]
 
 # the part of the frame below an object (what a forwarding wrapper's super().evaluate may touch)
